@@ -489,6 +489,63 @@ def generate_round5(bdir):
              "def uidWrites : List UidWrite := [\n  " +
              ",\n  ".join("{ file := %s, fn := %s, stmt := %s,\n    applies := %s,\n    path := %s }" %
                          (lean_str(a), lean_str(b), lean_str(c), lean_list(d), lean_list(e)) for a, b, c, d, e in sites) + "]")
+    # set_root_uid / set_backbone_uid RENAME an existing uid record in place (every holder of the record changes its name):
+    # who calls them, and under which conditions
+    ren = []
+    callre = re.compile(r"\b(set_root_uid|set_backbone_uid)\s*\(")
+    for root in SCAN_ROOTS:
+        for dp, dns, fns in os.walk(os.path.join(E.REPO, root)):
+            dns[:] = [d for d in dns if not d.startswith((".", "_build"))]
+            for fn in sorted(fns):
+                if not fn.endswith(SCAN_EXT):
+                    continue
+                pth = os.path.join(dp, fn)
+                try:
+                    raw = open(pth, errors="replace").read()
+                except OSError:
+                    continue
+                if "set_root_uid" not in raw and "set_backbone_uid" not in raw:
+                    continue
+                t = blank_comments_strings(raw)
+                spans = function_spans(t)
+                rel = os.path.relpath(pth, E.REPO)
+                for m in callre.finditer(t):
+                    f = None
+                    for name, a, b in spans:
+                        if a <= m.start() <= b:
+                            f = name or "<unnamed block>"
+                            break
+                    if f is None:
+                        continue            # prototype / definition head
+                    if f == m.group(1):
+                        continue
+                    ren.append((rel, f, m.group(1)))
+    ren_items = []
+    for rel, f, callee in sorted(set(ren)):
+        conds = ["<not analysable>"]
+        if rel.endswith(".c") and not f.startswith("<"):
+            try:
+                fa = ast_function(bdir, rel, f)
+                conds = []
+                for n, path in walk(fa):
+                    if n.get("kind") == "CallExpr" and kids(n) and cx(kids(n)[0]) == callee:
+                        chain = list(path) + [n]
+                        cs = []
+                        for j, pnode in enumerate(chain[:-1]):
+                            if pnode.get("kind") == "IfStmt":
+                                pk = kids(pnode)
+                                if len(pk) >= 2 and chain[j + 1] is pk[1]:
+                                    cs.append("if " + cx(pk[0]))
+                                elif len(pk) >= 3 and chain[j + 1] is pk[2]:
+                                    cs.append("else " + cx(pk[0]))
+                        conds.append(" && ".join(cs))
+            except TieBroken as e:
+                conds = ["<not analysable: %s>" % e]
+        for c in conds:
+            ren_items.append((rel, f, callee, c))
+    L.append("/-- every call of set_root_uid / set_backbone_uid (they rename a uid record IN PLACE) with its enclosing conditions -/\n"
+             "def uidRenamers : List (String × String × String × String) := [" +
+             ", ".join("(%s, %s, %s, %s)" % tuple(lean_str(x) for x in it) for it in ren_items) + "]")
     L.append("/-- functions that read the fields without writing them -/\n"
              "def uidReaders : List (String × String) := [" + ", ".join("(%s, %s)" % (lean_str(a), lean_str(b)) for a, b in readers) + "]")
 
